@@ -466,6 +466,9 @@ func (p *Pool) Eq(a, b *Term) *Term {
 			return p.Not(a)
 		}
 	}
+	if a.Sort.Kind == SInt && p.DistinctFn != nil && p.DistinctFn(a, b) {
+		return p.False()
+	}
 	if a.Sort != b.Sort && a.Sort.String() != b.Sort.String() {
 		panic(fmt.Sprintf("Eq: sort mismatch %s vs %s (%s, %s)", a.Sort, b.Sort, p.Show(a), p.Show(b)))
 	}
